@@ -124,3 +124,36 @@ Section Humanize.
           end
     end.
 End Humanize.
+
+(** * a counter-model: the cycle filter with ONE visited set for all parent edges of a class
+    (what [get_super_types_iter] would be without its per-edge [visited.clear()]).  Not the code: used
+    only to show that the per-edge reset is what makes the filtered graph acyclic. *)
+Definition eff_supers_shared (G : world) (id : N) : option (list ty) :=
+  match raw_supers G id with
+  | None => None
+  | Some sups =>
+      (fix go (l : list ty) (visited : list N) : option (list ty) :=
+         match l with
+         | [] => Some []
+         | s :: r =>
+             match super_id s with
+             | None => match go r visited with Some r' => Some (s :: r') | None => None end
+             | Some x =>
+                 match super_reaches G (dfs_fuel G) x id visited with
+                 | None => None
+                 | Some (c, visited') =>
+                     match go r visited' with
+                     | Some r' => Some (if c then r' else s :: r')
+                     | None => None
+                     end
+                 end
+             end
+         end) sups []
+  end.
+
+(** the braid: A : P, B ; P : B ; B : Q, A ; Q : A   (A = 1, P = 2, B = 3, Q = 4) *)
+Definition braid_world : world :=
+  [(1, {| d_kind := DClass; d_supers := [TRef 2; TRef 3]; d_origin := None |});
+   (2, {| d_kind := DClass; d_supers := [TRef 3]; d_origin := None |});
+   (3, {| d_kind := DClass; d_supers := [TRef 4; TRef 1]; d_origin := None |});
+   (4, {| d_kind := DClass; d_supers := [TRef 1]; d_origin := None |})].
